@@ -5,11 +5,12 @@
 (* without line feeds, so "." is any byte.                                  *)
 (*  <<"chr", b>> <<"any">> <<"cls", set, negated>> <<"cat", r, s>>         *)
 (*  <<"alt", r, s>> <<"star", r>> <<"plus", r>> <<"opt", r>> <<"eps">>     *)
+(*  <<"rep", r, n, m>> counted repetition r{n} / r{n,m} (n <= m <= 9)       *)
 (* A pattern is <<anchoredStart, tree, anchoredEnd>>; the builtin reports   *)
 (* whether the subject *contains* a match.                                  *)
 EXTENDS Integers, Sequences, FiniteSets
 
-RECURSIVE ReEnds(_, _, _), ReStar(_, _, _, _)
+RECURSIVE ReEnds(_, _, _), ReStar(_, _, _, _), RePow(_, _, _, _)
 \* positions (1-based index of the next unread byte) at which a match of r starting at i can end
 ReEnds(r, s, i) ==
   CASE r[1] = "eps" -> {i}
@@ -21,6 +22,9 @@ ReEnds(r, s, i) ==
     [] r[1] = "opt" -> {i} \cup ReEnds(r[2], s, i)
     [] r[1] = "star" -> ReStar(r[2], s, {i}, {i})
     [] r[1] = "plus" -> UNION { ReStar(r[2], s, {j}, {j}) : j \in ReEnds(r[2], s, i) }
+    [] r[1] = "rep" -> UNION { RePow(r[2], s, {i}, k) : k \in r[3]..r[4] }
+\* end positions after exactly n repetitions of r started at the positions in from
+RePow(r, s, from, n) == IF n = 0 THEN from ELSE RePow(r, s, UNION { ReEnds(r, s, j) : j \in from }, n - 1)
 ReStar(r, s, frontier, acc) ==
   LET new == (UNION { ReEnds(r, s, j) : j \in frontier }) \ acc IN
   IF new = {} THEN acc ELSE ReStar(r, s, new, acc \cup new)
@@ -41,6 +45,9 @@ ReText(r) ==
     [] r[1] = "opt" -> <<40>> \o ReText(r[2]) \o <<41, 63>>
     [] r[1] = "star" -> <<40>> \o ReText(r[2]) \o <<41, 42>>
     [] r[1] = "plus" -> <<40>> \o ReText(r[2]) \o <<41, 43>>
+    \* a counted single character is written bare (a{2}), so the braces are the only operator of the pattern
+    [] r[1] = "rep" -> (IF r[2][1] = "chr" THEN ReText(r[2]) ELSE <<40>> \o ReText(r[2]) \o <<41>>)
+                       \o <<123, 48 + r[3]>> \o (IF r[4] # r[3] THEN <<44, 48 + r[4]>> ELSE <<>>) \o <<125>>
 ReRender(p) == (IF p[1] THEN <<94>> ELSE <<>>) \o ReText(p[2]) \o (IF p[3] THEN <<36>> ELSE <<>>)
 
 A == <<"chr", 97>>
@@ -52,6 +59,7 @@ ClsAC == <<"cls", {97, 98, 99}, FALSE, <<97, 45, 99>>>>      \* [a-c]
 ReTrees == { A, <<"any">>, ClsAB, ClsNotA, ClsAC, <<"cat", A, Bb>>, <<"cat", A, <<"cat", <<"any">>, Bb>>>>,
              <<"alt", A, Bb>>, <<"alt", <<"cat", A, Bb>>, Cc>>, <<"star", A>>, <<"cat", A, <<"star", Bb>>>>,
              <<"plus", <<"cat", A, Bb>>>>, <<"opt", A>>, <<"cat", <<"opt", A>>, Bb>>, <<"cat", <<"plus", ClsAB>>, Cc>>,
-             <<"star", <<"alt", A, <<"cat", Bb, Cc>>>>>>, <<"cat", <<"star", <<"any">>>>, Cc>>, <<"cat", A, <<"cat", <<"star", ClsNotA>>, A>>>> }
+             <<"star", <<"alt", A, <<"cat", Bb, Cc>>>>>>, <<"cat", <<"star", <<"any">>>>, Cc>>, <<"cat", A, <<"cat", <<"star", ClsNotA>>, A>>>>,
+             <<"rep", A, 2, 2>>, <<"cat", A, <<"rep", Bb, 2, 2>>>>, <<"rep", Bb, 1, 2>>, <<"rep", <<"cat", A, Bb>>, 2, 2>>, <<"cat", <<"rep", Bb, 2, 3>>, Cc>> }
 RePool == { <<s, t, e>> : s \in BOOLEAN, t \in ReTrees, e \in BOOLEAN }
 =============================================================================
